@@ -262,7 +262,7 @@ def generate(seed, tier="quick"):
     for entry in list(pool):
         if rnd.random() < 0.25 and " " in entry["text"]:
             variant = entry["text"]
-            kind = rnd.choice(["double", "tab", "case", "symbol", "mark"])
+            kind = rnd.choice(["double", "tab", "case", "symbol", "mark", "indicator", "trailing", "leading"])
             if kind == "double":
                 variant = variant.replace(" ", "  ", rnd.randint(1, 3))
             elif kind == "tab":
@@ -273,6 +273,15 @@ def generate(seed, tier="quick"):
                 variant = variant.replace(" U ", " ∧ ").replace(" O ", " ∨ ").replace(" X ", " ⊻ ")
             elif kind == "mark":
                 variant = variant.replace("Muss ", "M ").replace("Soll ", "S ").replace("Kann ", "K ")
+            elif kind == "indicator":  # the same condition text under another indicator
+                for old, new in (("Muss ", "Kann "), ("Soll ", "Muss "), ("Kann ", "Soll "), ("M ", "K "), ("X ", "U ")):
+                    if variant.startswith(old):
+                        variant = new + variant[len(old):]
+                        break
+            elif kind == "trailing":
+                variant = variant + " "
+            elif kind == "leading":
+                variant = " " + variant
             if variant != entry["text"]:
                 pool.append(dict(entry, text=variant))
     n_clients = rnd.choice([1, 1, 2, 2, 3, 4])
